@@ -4,7 +4,10 @@ pub mod hist;
 pub mod libq;
 pub mod lsp11;
 pub mod lsp12;
+pub mod lsp13;
 pub mod norm;
+pub mod refactor;
+pub mod rename;
 
 pub fn all() -> Vec<Box<dyn Check>> {
     let mut v: Vec<Box<dyn Check>> = vec![];
@@ -14,8 +17,13 @@ pub fn all() -> Vec<Box<dyn Check>> {
     for p in ["C05", "C15", "C17", "C18"] {
         v.push(Box::new(libq::LibQ { prop: p }));
     }
+    for p in ["C09", "C10"] {
+        v.push(Box::new(refactor::Refactor { prop: p }));
+    }
+    v.push(Box::new(rename::C08));
     v.push(Box::new(lsp11::C11));
     v.push(Box::new(lsp12::C12));
+    v.push(Box::new(lsp13::C13));
     for p in ["C04", "C20"] {
         v.push(Box::new(hist::HistCheck { prop: p }));
     }
